@@ -76,7 +76,7 @@ type Scen struct {
 	Total2 int           `json:"total2"`
 	Pieces [][]Frag      `json:"pieces"`
 	Fr     []int         `json:"fr"` // curves: cut positions in sixteenths of Length()
-	Spike  bool          `json:"spike"` // LineReversal: consecutive straight edges (closing edge included) reverse direction
+	Tips   [][2]int      `json:"tips"` // LineReversal: the vertices at which consecutive straight edges (closing edge included) reverse direction
 }
 
 // Scenario is the replay unit: the specification's scenario under one embedding; Only restricts to one check.
@@ -91,6 +91,7 @@ const (
 	fChordH = 2
 	fChordV = 4
 	fChordP = 8
+	fTurn   = 16
 	band    = 0.015 // acceptance band for "about one percent"
 )
 
@@ -146,7 +147,7 @@ func (s *Scenario) desc() string {
 
 // applicable feature bits of a segment under the embedding
 func (x *ctxInfo) feat(bits int) int {
-	f := bits & fEcc
+	f := bits & (fEcc | fTurn)
 	if x.ei.axis == 1 && bits&fChordH != 0 {
 		f |= fChordH
 	}
@@ -175,6 +176,8 @@ func featTag(f int) string {
 		return "arc-chord-eq-rx"
 	case f&fEcc != 0:
 		return "ecc-large-arc"
+	case f&fTurn != 0:
+		return "bezier-turns-back"
 	}
 	return ""
 }
@@ -259,9 +262,10 @@ func (x *ctxInfo) checkLength(p *canvas.Path, add func(sig, detail string), stat
 				continue
 			}
 			nDev++
-			devFeat |= x.feat(b[2])
+			sf := x.feat(b[2]) &^ fTurn // TurnsBack is a feature of SplitAt positions only
+			devFeat |= sf
 			devKinds[kindLetter(g)] = true
-			if x.feat(b[2]) == 0 {
+			if sf == 0 {
 				devFeat |= 1 << 10 // a deviating segment without any feature
 			}
 			// deviation pattern of the arc-centre shortcut: the arc is measured as half a turn on the chord as diameter
@@ -405,6 +409,26 @@ func countMoves(ps []*canvas.Path) (moves int) {
 	return
 }
 
+// tipMissing reports a spike tip of the scenario (a vertex at which two consecutive straight edges reverse direction)
+// that is farther than tol from every returned piece.
+func (x *ctxInfo) tipMissing(pieces [][][]oracle.Pt, tol float64) (oracle.Pt, bool) {
+	for _, t := range x.s.Tips {
+		tp := x.pt(Rat{t[0], t[1], 1})
+		near := false
+		for _, pc := range pieces {
+			for _, f := range pc {
+				if oracle.Dist([]oracle.Contour{{Pts: f}}, tp, false) <= tol {
+					near = true
+				}
+			}
+		}
+		if !near {
+			return tp, true
+		}
+	}
+	return oracle.Pt{}, false
+}
+
 // ---------------------------------------------------------------------------------------------- SplitAt, polylines
 
 func (x *ctxInfo) checkSplitPoly(p *canvas.Path, length float64, lengthOK bool, add func(sig, detail string)) {
@@ -418,8 +442,6 @@ func (x *ctxInfo) checkSplitPoly(p *canvas.Path, length float64, lengthOK bool, 
 	tag := ""
 	if x.multi {
 		tag = "+multi-subpath"
-	} else if s.Spike {
-		tag = "+line-reversal"
 	}
 	where := fmt.Sprintf("SplitAt(%v) [half units %v of total %d]; %s", ts, s.Cuts, s.Total2, s.desc())
 	if pm != nil {
@@ -502,6 +524,9 @@ func (x *ctxInfo) checkSplitPoly(p *canvas.Path, length float64, lengthOK bool, 
 		dev := "pieces-differ"
 		if x.multi && countMoves(ps) == len(ps) {
 			dev = "subpath-moveto-missing" // no piece ever starts a second sub-path: the MoveTo of the sub-paths after the first is never emitted
+		} else if tip, missing := x.tipMissing(real, 1e3*tol); missing {
+			dev, tag = "spike-tip-missing", "+line-reversal" // a vertex at which the path reverses direction is on no returned piece
+			where = fmt.Sprintf("tip (%g,%g); %s", tip.X, tip.Y, where)
 		} else if len(real) != len(exp) {
 			dev = "piece-count"
 		}
@@ -580,8 +605,6 @@ func (x *ctxInfo) checkSplitCurves(p *canvas.Path, length float64, lengthOK bool
 		tag = "+" + t
 	} else if x.multi {
 		tag = "+multi-subpath"
-	} else if s.Spike {
-		tag = "+line-reversal"
 	}
 	where := fmt.Sprintf("SplitAt(%v) [sixteenths %v of Length() = %.9g]; %s", ts, s.Fr, length, s.desc())
 	ps, pm := splitCall(p, ts)
@@ -628,6 +651,20 @@ func (x *ctxInfo) checkSplitCurves(p *canvas.Path, length float64, lengthOK bool
 		}
 		pcs = append(pcs, piece{keep, oracle.RefinedLength(segs, fine/2)})
 	}
+	if len(s.Tips) > 0 {
+		var all [][][]oracle.Pt
+		for _, pc := range pcs {
+			var fs [][]oracle.Pt
+			for _, f := range pc.fr {
+				fs = append(fs, f.pts)
+			}
+			all = append(all, fs)
+		}
+		if tip, missing := x.tipMissing(all, tolW); missing {
+			add("splitat:spike-tip-missing+line-reversal", fmt.Sprintf("the vertex (%g,%g) at which the path reverses direction is on no returned piece; %s", tip.X, tip.Y, where))
+			return
+		}
+	}
 	if len(pcs) != len(ts)+1 {
 		add("splitat:piece-count"+tag, fmt.Sprintf("%d non-empty pieces for %d distinct positions strictly inside (0, Length); %s", len(pcs), len(ts), where))
 		return
@@ -636,16 +673,27 @@ func (x *ctxInfo) checkSplitCurves(p *canvas.Path, length float64, lengthOK bool
 	if math.Abs(sum-length) > band*length {
 		add("splitat:length-sum"+tag, fmt.Sprintf("Length() of the pieces sum to %.9g, Length() of the path = %.9g (%+.2f %%); %s", sum, length, 100*(sum-length)/length, where))
 	}
+	// cut points at the prescribed arc lengths: piece k (not the last) is as long as its two positions are apart; the last
+	// piece ends where the path ends: it is as long as the TRUE length of the path (independent evaluator) minus the
+	// last position (Length() itself is only accurate to about one percent, so Length() - t_n is not demanded)
+	trueLen := 0.0
+	if osegs, err := oracle.Decode(p.Data()); err == nil {
+		trueLen = oracle.RefinedLength(osegs, fine/2)
+	}
 	prev := 0.0
 	for k, pc := range pcs {
-		next := length
+		next := trueLen
 		if k < len(sorted) {
 			next = sorted[k]
 		}
 		want := next - prev
 		prev = next
 		if math.Abs(pc.tlen-want) > band*length {
-			add("splitat:piece-length"+tag, fmt.Sprintf("piece %d has arc length %.9g, its cut positions are %.9g apart (difference %+.2f %% of Length()); %s", k+1, pc.tlen, want, 100*(pc.tlen-want)/length, where))
+			dev := "piece-length"
+			if math.Abs(pc.tlen-want) > 0.06*length {
+				dev = "piece-length-gross"
+			}
+			add("splitat:"+dev+tag, fmt.Sprintf("piece %d has arc length %.9g, required %.9g (difference %+.2f %% of Length(); true length of the path %.9g); %s", k+1, pc.tlen, want, 100*(pc.tlen-want)/length, trueLen, where))
 			break
 		}
 	}
@@ -1068,10 +1116,13 @@ func (r *runner) one(sc *Scen) {
 	if pf&fEcc != 0 {
 		r.feat["ecc-large-arc"]++
 	}
+	if pf&fTurn != 0 {
+		r.feat["bezier-turns-back"]++
+	}
 	if pf&(fChordH|fChordV|fChordP) != 0 {
 		r.feat["arc-chord-eq-rx(H, V or P)"]++
 	}
-	if sc.Spike {
+	if len(sc.Tips) > 0 {
 		r.feat["line-reversal"]++
 	}
 	r.mu.Unlock()
@@ -1134,9 +1185,9 @@ func (d Driver) Run(c *core.Ctx) error {
 
 	// 1. model level
 	mc := []tlc.Opts{
-		{Module: "Measure", Config: cfg(8, 0, "pyth", `{"L"}`, "{1}", c.Pick(150, 1500), true), Seed: c.Seed, Workers: 4, HeapGB: 3, Coverage: c.Thorough(), Timeout: 20 * time.Minute},
-		{Module: "Measure", Config: cfg(10, 0, "curves", all, fams10, c.Pick(60, 500), true), Seed: c.Seed, Workers: 4, HeapGB: 3, Timeout: 20 * time.Minute},
-		{Module: "Measure", Config: cfg(6, 1, "chord", `{"L","A"}`, "{1}", c.Pick(60, 400), true), Seed: c.Seed, Workers: 2, HeapGB: 2, Timeout: 20 * time.Minute},
+		{Module: "Measure", Config: cfg(8, 0, "pyth", `{"L"}`, "{1}", c.Pick(100, 1500), true), Seed: c.Seed, Workers: 4, HeapGB: 3, Coverage: c.Thorough(), Timeout: 20 * time.Minute},
+		{Module: "Measure", Config: cfg(10, 0, "curves", all, fams10, c.Pick(40, 500), true), Seed: c.Seed, Workers: 4, HeapGB: 3, Timeout: 20 * time.Minute},
+		{Module: "Measure", Config: cfg(6, 1, "chord", `{"L","A"}`, "{1}", c.Pick(40, 400), true), Seed: c.Seed, Workers: 2, HeapGB: 2, Timeout: 20 * time.Minute},
 	}
 	// 2. spec -> code
 	var jobs []tlc.Opts
@@ -1155,12 +1206,12 @@ func (d Driver) Run(c *core.Ctx) error {
 		gen(6, 1, "chord", `{"L","A"}`, "{1}", 4000, 8)
 		gen(12, 0, "curves", `{"L"}`, "{1}", 6000, 9)
 	} else {
-		gen(8, 0, "pyth", `{"L"}`, "{1}", 1500, 0)
-		gen(10, 0, "curves", all, fams10, 350, 2)
-		gen(20, 1, "curves", `{"A"}`, "{1,2,3,4,5,6,7,8,9,10,11}", 250, 4)
-		gen(30, 1, "curves", `{"A"}`, "{8,9,12}", 60, 5)
-		gen(8, 0, "curves", `{"L","Q","C"}`, "{1}", 300, 6)
-		gen(6, 1, "chord", `{"L","A"}`, "{1}", 250, 8)
+		gen(8, 0, "pyth", `{"L"}`, "{1}", 1000, 0)
+		gen(10, 0, "curves", all, fams10, 300, 2)
+		gen(20, 1, "curves", `{"A"}`, "{1,2,3,4,5,6,7,8,9,10,11}", 200, 4)
+		gen(30, 1, "curves", `{"A"}`, "{8,9,12}", 50, 5)
+		gen(8, 0, "curves", `{"L","Q","C"}`, "{1}", 250, 6)
+		gen(6, 1, "chord", `{"L","A"}`, "{1}", 200, 8)
 	}
 	sem := make(chan struct{}, 4)
 	var wg sync.WaitGroup
